@@ -1,0 +1,26 @@
+//go:build verif
+
+package signing
+
+// VerifC19Codec is what the C19 verification driver needs from a decoder type.
+type VerifC19Codec = interface {
+	Marshal() ([]byte, error)
+	Unmarshal([]byte) error
+}
+
+// VerifC19Factories returns a constructor of a zero value for every type of
+// this package that has an Unmarshal method and is not exported.
+func VerifC19Factories() map[string]func() VerifC19Codec {
+	return map[string]func() VerifC19Codec{
+		"ephemeralPublicKeyMessage": func() VerifC19Codec { return &ephemeralPublicKeyMessage{} },
+		"tssRoundOneMessage":        func() VerifC19Codec { return &tssRoundOneMessage{} },
+		"tssRoundTwoMessage":        func() VerifC19Codec { return &tssRoundTwoMessage{} },
+		"tssRoundThreeMessage":      func() VerifC19Codec { return &tssRoundThreeMessage{} },
+		"tssRoundFourMessage":       func() VerifC19Codec { return &tssRoundFourMessage{} },
+		"tssRoundFiveMessage":       func() VerifC19Codec { return &tssRoundFiveMessage{} },
+		"tssRoundSixMessage":        func() VerifC19Codec { return &tssRoundSixMessage{} },
+		"tssRoundSevenMessage":      func() VerifC19Codec { return &tssRoundSevenMessage{} },
+		"tssRoundEightMessage":      func() VerifC19Codec { return &tssRoundEightMessage{} },
+		"tssRoundNineMessage":       func() VerifC19Codec { return &tssRoundNineMessage{} },
+	}
+}
